@@ -268,7 +268,10 @@ pub fn has_date_triple(ts: &[Tok]) -> bool {
                 glue = None;
                 flat.push((false, c.to_string()));
             }
-            Tok::L => flat.push((false, "(".into())),
+            Tok::L => {
+                glue = None;
+                flat.push((false, "(".into()))
+            }
             Tok::R => flat.push((false, ")".into())),
         }
     }
